@@ -132,6 +132,11 @@ def point_outside(R, region):
         side = R.choice(sides)
         fx = R.randrange(nx) + 0.5
         fy = R.randrange(ny) + 0.5
+        if dh in (0.25, 0.5, 1.0) and side in (1, 3) and R.random() < 0.4:
+            # exactly ON the outer east / north edge (exact binary fractions): outside by the half-open convention
+            if side == 1:
+                return float(b[2]), dec(b[1] + dh * fy, 8)
+            return dec(b[0] + dh * fx, 8), float(b[3])
         if side == 0:
             return dec(b[0] - dh * 1.5, 8), dec(b[1] + dh * fy, 8)
         if side == 1:
